@@ -54,6 +54,10 @@ macro_rules! delegate_to_core {
       $self.mailbox()
           .send(cmd)
           .await.map_err(|_send_error| $crate::error::ZmqError::Internal("Mailbox send error".into()))?;
+      // The command loop may have ended in the meantime: nothing would ever answer.
+      if $self.core().mailbox_closed.load(std::sync::atomic::Ordering::SeqCst) {
+        return Err($crate::error::ZmqError::InvalidState("Socket is closed".into()));
+      }
       // Await the reply from SocketCore.
       // The `??` propagates both the channel error and the inner Result error.
       reply_rx.recv().await.map_err(|_recv_error| $crate::error::ZmqError::Internal("Reply channel error".into()))?
@@ -68,6 +72,9 @@ macro_rules! delegate_to_core {
           $self.mailbox()
               .send(cmd)
               .await.map_err(|_send_error| $crate::error::ZmqError::Internal("Mailbox send error".into()))?;
+          if $self.core().mailbox_closed.load(std::sync::atomic::Ordering::SeqCst) {
+            return Err($crate::error::ZmqError::InvalidState("Socket is closed".into()));
+          }
           reply_rx.recv().await.map_err(|_recv_error| $crate::error::ZmqError::Internal("Reply channel error".into()))?
       }
   };
